@@ -1,7 +1,13 @@
 use std::fs::{File, hard_link, read_dir, remove_file, rename};
 use std::ops::Bound;
 use std::path::PathBuf;
+#[cfg(not(loom))]
 use std::sync::{Arc, Condvar, Mutex, MutexGuard};
+
+#[cfg(loom)]
+use loom::sync::{Condvar, Mutex, MutexGuard};
+#[cfg(loom)]
+use std::sync::Arc;
 
 use mani::{Edit, Manifest};
 use setsum::Setsum;
